@@ -1,13 +1,19 @@
 """C16 — a program split into modules computes what its inlined form computes (DESIGN §6 C16).
 
-1. Lean: Props/C16.lean (loader terminates / loads every path once / cycles are errors, search
-   order, absolute refused, extension rule, variable index, shadowing, module isolation) is
-   rebuilt and audited.
+1. Lean: Props/C16.lean (whole-program refinement modular run = inlined run, loader terminates /
+   loads every path once / reachable cycles are always errors, search order, absolute refused,
+   extension rule, variable index incl. the command line's vector, shadowing, module isolation)
+   is rebuilt and audited.
 2. In-memory correspondence (`Loader::with_read`): all shapes over three modules + seeded random
    graphs (cycles, aliases of one file, missing and broken files, data imports, globals, name
    clashes, calls from under binders).  For every graph:
      real reader-call trace / load errors / compile errors / output   ==  model (`c16.run`)
      real run of the *inlined* single program (printed by the model's `inline`)  ==  real modular run
+   Also compared with the real output: the model's lexical evaluator on the inlined text and on
+   the closure form of the inlined program (`runLexical`, subject of run_modules_eq_run_inlined).
+2b. Module graphs through the jaq binary with --arg/--argjson/--slurpfile/--rawfile, data imports,
+   $ENV, $ARGS, input_filename inside modules: real output == model under the run-time vector
+   order of `real_main` (`cliGlobals`, var_index_correct_cli).
 3. CLI with real temporary directories: `-L`, `search` metadata, `$ORIGIN`, `~` (HOME), default
    library paths, relative-to-importing-file, absolute paths, extensions; every placement of
    the file among the candidate directories.  real `jaq`  ==  model `findFile`
@@ -413,6 +419,139 @@ def run_graph_part(ctx):
     return cases, kinds, feats, len(want), bad, bad_inline, samples
 
 
+def run_vars_part(ctx):
+    """Command-line variables: module graphs run by the jaq binary with --arg/--argjson/--slurpfile/--rawfile,
+    data imports, $ENV, $ARGS and input_filename used inside modules; the model orders the run-time vector
+    as `binds`/`real_main` do (`cliGlobals`, theorem var_index_correct_cli) and must predict the output."""
+    from concurrent.futures import ThreadPoolExecutor
+    ctx.build_jaq()
+    pr = subprocess.run([ctx.harness_bin, "c16", "gencli"], stdout=subprocess.PIPE, stderr=subprocess.PIPE, text=True,
+                        errors="replace", timeout=600,
+                        env={**os.environ, "VERIF_SEED": str(ctx.seed), "VERIF_TIER": ctx.tier})
+    if pr.returncode != 0:
+        raise verif.CheckError("harness c16 gencli failed: " + pr.stderr[-1500:])
+    cases = []
+    for l in pr.stdout.splitlines():
+        if not l.startswith("CLI "):
+            continue
+        cid, named, graph, mainhex, files = (l[4:].split("\t") + [""])[:5]
+        named = [tuple(x.split("|")) for x in named.split(",") if x]
+        files = dict(x.split("=", 1) for x in files.split(",") if "=" in x)
+        cases.append((cid, named, graph, bytes.fromhex(mainhex).decode(), {k: bytes.fromhex(v).decode() for k, v in files.items()}))
+    root = os.path.realpath(tempfile.mkdtemp(prefix="c16v-"))
+    envv = {"HOME": root, "PATH": "/usr/bin:/bin", "NO_COLOR": "1", "C16_PROBE": "x y"}
+
+    def one(case):
+        cid, named, graph, main, files = case
+        d = os.path.join(root, cid)
+        os.makedirs(d)
+        for name, text in files.items():
+            if name:
+                with open(os.path.join(d, name + ".jq"), "w") as f:
+                    f.write(text)
+        for dn in ("da", "db", "dc"):
+            with open(os.path.join(d, dn + ".json"), "w") as f:
+                f.write(json.dumps("D:" + dn))
+        with open(os.path.join(d, "in.json"), "w") as f:
+            f.write("null")
+        argv, groups = [], {"arg": [], "rawfile": [], "slurpfile": [], "argjson": []}
+        for i, (kind, name, val) in enumerate(named):
+            k = name[1:]
+            if kind == "arg":
+                argv += ["--arg", k, val]
+                groups[kind].append((k, val))
+            elif kind == "argjson":
+                argv += ["--argjson", k, json.dumps(val)]
+                groups[kind].append((k, val))
+            elif kind == "rawfile":
+                with open(os.path.join(d, "r%d.txt" % i), "w") as f:
+                    f.write(val)
+                argv += ["--rawfile", k, "r%d.txt" % i]
+                groups[kind].append((k, val))
+            else:
+                with open(os.path.join(d, "s%d.json" % i), "w") as f:
+                    f.write(json.dumps(val))
+                argv += ["--slurpfile", k, "s%d.json" % i]
+                groups[kind].append((k, [val]))
+        binds = groups["arg"] + groups["rawfile"] + groups["slurpfile"] + groups["argjson"]
+        args_json = json.dumps({"positional": [], "named": dict(binds)})
+        env_json = json.dumps(envv)
+        full = [ctx.jaq_bin, "-c", "-L", "."] + argv + [main, "in.json"]
+        real = None
+        for attempt in (0, 1):
+            try:
+                p = subprocess.run(full, cwd=d, env=envv, timeout=600, stdin=subprocess.DEVNULL, stdout=subprocess.PIPE,
+                                   stderr=subprocess.PIPE, text=True, errors="replace")
+                real = (p.returncode, p.stdout, p.stderr)
+                break
+            except subprocess.TimeoutExpired:
+                pass
+        shutil.rmtree(d, ignore_errors=True)
+        if real is None:
+            raise verif.CheckError("jaq did not finish within 600 s (twice): " + " ".join(full)[:300])
+        req = "c16.cli NAMED%d %s E|%s A|%s F|%s %s" % (
+            len(named), " ".join("|".join(x) for x in named), env_json.encode().hex(), args_json.encode().hex(),
+            b"in.json".hex(), graph)
+        return cid, full[1:], real, " ".join(req.split()), main, files
+
+    try:
+        with ThreadPoolExecutor(4) as ex:
+            results = list(ex.map(one, cases))
+    finally:
+        shutil.rmtree(root, ignore_errors=True)
+    ans = ctx.model([r[3] for r in results])
+    bad = 0
+    kinds = {}
+    feats = {"named": 0, "named-clash": 0, "ENV-in-module": 0, "input_filename-in-module": 0, "ARGS": 0, "data-import": 0,
+             "data-in-dependency-and-main": 0, "include+import-same-file": 0}
+    samples = []
+    for (cid, argv, (rc, out, err), req, main, files), model in zip(results, ans):
+        if rc == 0:
+            try:
+                real = ("OUT", json.loads(out))
+            except ValueError:
+                real = ("UNPARSABLE", out[:200])
+        else:
+            real = ("ERR", None)
+        parts = model.split(" ## ")
+        if parts[0].startswith("OUT "):
+            try:
+                mv = [json.loads(x[4:]) if x.startswith("OUT ") else x for x in parts]
+            except ValueError:
+                mv = parts
+            ok = real[0] == "OUT" and all(x == real[1] for x in mv)
+        elif parts[0] in ("LOADERR", "COMPERR"):
+            ok = real[0] == "ERR"
+        else:
+            ok = False
+        kkey = real[0] if real[0] != "ERR" else ("ERR-vs-" + parts[0].split(" ")[0] if parts[0].startswith("OUT") else parts[0].split(" ")[0])
+        kinds[kkey] = kinds.get(kkey, 0) + 1
+        mods_text = " ".join(files.values())
+        feats["named"] += "NAMED0" not in req
+        nn = [x.split("|")[1] for x in req.split(" ")[2:] if x.count("|") == 2 and x.split("|")[0] in ("arg", "argjson", "rawfile", "slurpfile")]
+        feats["named-clash"] += len(set(nn)) < len(nn)
+        feats["ENV-in-module"] += "$ENV" in mods_text
+        feats["input_filename-in-module"] += "input_filename" in mods_text
+        feats["ARGS"] += "$ARGS" in mods_text or "$ARGS" in main
+        feats["data-import"] += " as $" in mods_text or " as $" in main.split(";")[0] + ";".join(main.split(";")[:6])
+        feats["data-in-dependency-and-main"] += " as $" in mods_text and any((" as $" in x) for x in main.split(";")[:6])
+        feats["include+import-same-file"] += ('include "a"' in main and 'import "a" as m' in main) or \
+            ('include "a"' in main and 'import "./a" as m' in main)
+        desc = {"argv": argv[:-2] + ["<main program>", "in.json"], "main": main[:700], "files": {k: v[:500] for k, v in files.items()},
+                "real": {"rc": rc, "stdout": out[:500], "stderr": err[:300]}, "model": model[:700]}
+        if len(samples) < 2 and real[0] == "OUT" and len(nn) >= 2 and "$ENV" in mods_text:
+            samples.append(desc)
+        if not ok:
+            bad += 1
+            if bad <= 10:
+                ctx.violation("c16-cli-vars:" + cid,
+                              "command-line variables / data imports inside modules: the jaq binary and the model of the run-time "
+                              "vector (binds, real_main, Vars::new) disagree", desc,
+                              broken=["JaqVerif.Props.C16.var_index_correct_cli", "correspondence c16-cli-vars"])
+    ctx.log("cli variables: %d programs %s, %d disagreements" % (len(results), kinds, bad))
+    return len(results), kinds, feats, samples, bad
+
+
 def run(ctx):
     ctx.build_harness()
     ctx.build_model()
@@ -424,6 +563,9 @@ def run(ctx):
     n_cli, n_cli_distinct, groups, csamples, bad_corr, bad_prop = (0, 0, {}, [], 0, 0)
     if part in ("all", "graphs"):
         cases, kinds, feats, n_inl, bad, bad_inline, gsamples = run_graph_part(ctx)
+    n_vars, vkinds, vfeats, vsamples, bad_vars = (0, {}, {}, [], 0)
+    if part in ("all", "vars"):
+        n_vars, vkinds, vfeats, vsamples, bad_vars = run_vars_part(ctx)
     if part in ("all", "cli"):
         n_cli, n_cli_distinct, groups, csamples, bad_corr, bad_prop = run_cli_part(ctx)
     if part != "all":
@@ -431,23 +573,32 @@ def run(ctx):
 
     distinct_graphs = len({c[1] for c in cases})
     ctx.coverage.update({
-        "evaluations": len(cases) + n_inl + n_cli,
-        "distinct_nontrivial": distinct_graphs + n_cli_distinct,
+        "evaluations": len(cases) + n_inl + n_cli + n_vars,
+        "distinct_nontrivial": distinct_graphs + n_cli_distinct + vkinds.get("OUT", 0),
         "rule": "graphs: every shape over 3 modules + main (6 forward edges x none/include/import = 729, several random fillings each) "
+                "plus 1200/6000 targeted graphs in four families (data imports in a dependency AND in later modules/main under clashing "
+                "names next to globals of the same names; include inside an included/imported module = non-transitivity; one file reached "
+                "as include and as import, also under a second name; diamond with data imports at every level) "
                 "plus seeded random graphs of 2-5 modules with back edges (cycles), one file under two names, duplicate directives, "
                 "missing and syntactically broken files, the default path, data imports, 0-3 global variables and 0-25% out-of-scope "
                 "names; definitions are arrays of a unique tag and probes (calls with $/filter parameters, qualified calls, variables "
                 "under as/label/def binders); distinct = distinct request text (every graph loads >= 1 module or fails to). "
+                "cli variables: 160/700 module graphs (2/3 targeted families, 1/3 random) run by the jaq binary with 0-4 named "
+                "variables of mixed kinds and clashing names ($ENV among them), $ENV/$ARGS/input_filename probes inside modules; "
+                "non-trivial = the program produced an output; "
                 "cli: scenarios (kind, path text, search metadata, -L list, main inline/file, set of files present); non-trivial = "
                 "the run ended in a found file / file not found / non-relative path (not another error)",
-        "samples": gsamples + csamples,
-        "traces_validated_against_impl": len(cases) + n_cli,
+        "samples": gsamples + csamples + vsamples,
+        "traces_validated_against_impl": len(cases) + n_cli + n_vars,
+        "cli_variable_programs": n_vars,
+        "cli_variable_outcomes": vkinds,
+        "cli_variable_features": vfeats,
         "graph_outcomes": kinds,
         "graph_features": feats,
         "inlined_programs_run_on_real_code": n_inl,
         "cli_scenarios": n_cli,
         "cli_groups": groups,
-        "disagreements": bad + bad_corr,
+        "disagreements": bad + bad_corr + bad_vars,
         "exhaustive": False,
     })
     ctx.assumptions += [
@@ -455,8 +606,11 @@ def run(ctx):
         "the probe language covers name resolution only (tags, arrays, variables, calls, qualified calls, as/label/def binders); the meaning of "
         "all other filters inside modules is C01's subject",
         "file system model: no symbolic links, Unix paths; std::fs::canonicalize = every prefix exists, `..` needs a directory",
-        "the inlined program is printed by the model's `inline` (Lean) and run by the real compiler; its equivalence to the modular program is "
-        "checked on every generated graph, proved only at the level of one look-up (resolve_modules_eq_resolve_inlined_partial)",
+        "run_modules_eq_run_inlined is proved for the inlined program in closure form (C16/Lexical.lean); the inlined program TEXT printed by "
+        "the model's `inline` (wrapper definitions with fresh names) is run by the real compiler and by the model's lexical evaluator on every "
+        "generated graph: that text and closure form agree is checked, not proved",
+        "command line: $ENV / $ARGS values are computed by the check from the environment and argument list it passes; the model is given "
+        "them as opaque JSON; what is compared is which slot every variable of every module reads",
         "the documentation (docs/advanced.dj, Search paths) lists the -L paths BEFORE the `search` metadata; the code, jq and the property "
         "statement use the opposite order; the check follows the property statement",
     ]
